@@ -712,6 +712,8 @@ FAMILIES = [("spans", gen_spans, 16, 300), ("apply", gen_apply, 40, 1500), ("con
 
 
 BATCH = {"quick": 10, "thorough": 24, "search": 24}
+HEAVY = {"x_merge", "x_smerge", "x_groupby", "x_aggregate", "x_journal", "x_import", "x_concat", "x_sort"}   # many kernels / signatures per case
+BATCH_HEAVY = {"quick": 6, "thorough": 8, "search": 8}     # a batch must stay well below the runner's 90 s stall limit on a loaded machine
 
 
 def sig_key(c):
@@ -744,9 +746,9 @@ def gen_cases(tier, rng):
     by_op = {}
     for c in cases:
         by_op.setdefault(c["op"], []).append(c)
-    size = BATCH.get(tier, 10)
     out = []
     for op in sorted(by_op):
+        size = (BATCH_HEAVY if op in HEAVY else BATCH).get(tier, 6)
         cs = sorted(by_op[op], key=sig_key)
         for i in range(0, len(cs), size):
             out.append({"op": "x_batch", "family": op, "cases": cs[i:i + size]})
